@@ -8,7 +8,7 @@ function with these properties (IEEE-754 binary64: u = 2⁻⁵³, binary32: u = 
 accuracy e of the mathematical library is a parameter).  Not covered: overflow, subnormal underflow, NaN.
 Helper lemmas: LdpcV/Lemmas/RoundLemmas.lean.   b = 1/(1−u),  γ_k = k·u/(1−k·u).
 -/
-import LdpcV.Lemmas.RoundLemmas
+import LdpcV.Lemmas.RoundAmin
 namespace LdpcV.C04Round
 open LdpcV LdpcV.ArithF LdpcV.Modulation LdpcV.Round
 
@@ -38,9 +38,37 @@ theorem approx_rule_rounded (M : FpModel) (B : ℝ) (msgs : List (Nat × ℝ)) (
           signParity Sc.real ((msgs.filter (fun m => m.1 != (out.getD i (0, 0)).1)).map (·.2)) = false) :=
   approx_rule M B msgs hn hB hd
 
+/-- C04: one floating-point step of the exact-form min* (`min(x,y) − ln_1p(exp(−|x−y|)) + ln_1p(exp(−(x+y)))`, the step of A-Min*)
+is within η_F(m) of the real step (which is the box-plus, C04Real.minstar_exact) whenever x + y ≥ −1 and |min(x,y)| ≤ m — the rounded
+accumulator may be slightly negative, the real one never is -/
+theorem full_step_rounded (M : FpModel) (x y m : ℝ) (hxy : -1 ≤ x + y) (hm : |min x y| ≤ m) :
+    |stepFull (Sc.rounded M) x y - stepFull Sc.real x y| ≤ etaF M m :=
+  stepFull_err M x y m hxy hm
+
+/-- C04: the whole floating-point A-Min* check rule (`impl_aminstarf!`) against the same rule at ℝ (whose messages are exact
+box-plus values, C04Real.fold_full_exact), for every degree d ≥ 2 and messages of magnitude at most B, as long as the accumulated
+bound (d−1)·η_F(B+1) is at most 1: it selects the same least reliable neighbour (comparisons are exact), never panics, emits the
+same destinations in the same order, and every value is within (d−1)·η_F(B+1) of the real rule's value -/
+theorem amin_rule_rounded (M : FpModel) (B : ℝ) (msgs : List (Nat × ℝ)) (hB : ∀ m ∈ msgs, |m.2| ≤ B) (hd : 2 ≤ msgs.length)
+    (hsmall : ((msgs.length - 1 : ℕ) : ℝ) * etaF M (B + 1) ≤ 1) :
+    ∃ out outR, checkAmin (Sc.rounded M) msgs = some out ∧ checkAmin Sc.real msgs = some outR ∧
+      out.map Prod.fst = outR.map Prod.fst ∧
+      ∀ i, i < out.length →
+        |(out.getD i (0, 0)).2 - (outR.getD i (0, 0)).2| ≤ ((msgs.length - 1 : ℕ) : ℝ) * etaF M (B + 1) :=
+  amin_rule M B msgs hB hd hsmall
+
+/-- the per-step bounds in closed form, for u ≤ 1/64: η(m) ≤ 5(u+e)(m+1) (approximate step), η_F(m) ≤ 32(u+e)(m+1) (exact-form step) -/
+theorem step_bounds_linear (M : FpModel) (hu : M.u ≤ 1 / 64) (m : ℝ) (hm : 0 ≤ m) :
+    eta M m ≤ 5 * (M.u + M.e) * (m + 1) ∧ etaF M m ≤ 32 * (M.u + M.e) * (m + 1) :=
+  ⟨eta_linear M hu m hm, etaF_linear M hu m hm⟩
+
 /-- non-vacuity: exact arithmetic (u = e = 0, `fl = id`) is a floating-point model, so the hypotheses are satisfiable;
 in it b = 1, η = 0 and the rounded rule IS the real rule -/
 example : eta FpModel.exact 5 = 0 := by
   unfold eta FpModel.exact b; simp
+
+/-- … and the smallness hypothesis of `amin_rule_rounded` holds there for every degree -/
+example (d : ℕ) (B : ℝ) : (d : ℝ) * etaF FpModel.exact (B + 1) ≤ 1 := by
+  unfold etaF c1 c2 b FpModel.exact; simp
 
 end LdpcV.C04Round
